@@ -34,7 +34,7 @@ def _cfg(params, calls):
     return dict(backend=params["backend"], n_workers=2, pre_dispatch=params.get("pre_dispatch", 2),
                 batch_size=params.get("batch_size", 1), return_as=params.get("return_as", "list"),
                 calls=calls, use_with=params.get("use_with", False), timeout=params.get("timeout"),
-                stuck=params.get("stuck", ()), stmt=params.get("stmt", False))
+                stuck=params.get("stuck", ()), stmt=params.get("stmt", False), cb_threads=params.get("cb_threads", 1))
 
 
 def prepare(params):
@@ -64,7 +64,7 @@ def _check_calls(o, spec):
             want = [(k, i) for i in range(n)]
             if e is not None:
                 probs.append("call %d raised %s: %s" % (k, type(e).__name__, e))
-            elif list(rec["result"]) != want:
+            elif (list(rec["result"]) if getattr(o.parallel, "return_ordered", True) else sorted(rec["result"])) != want:
                 probs.append("call %d returned %r, expected %r" % (k, rec["result"], want))
             if sorted(x for x in o.exec_log if x[0] == k) != want:
                 probs.append("call %d executed %r" % (k, [x for x in o.exec_log if x[0] == k]))
@@ -93,7 +93,9 @@ def ob_fail(f: int, n1: int, pos0: int, pos1: int, pk: int) -> bool:
     K = H.P("K", 1)
     steps = _BASE["steps"]
     H.assume(f < n0 and pos0 <= steps and pos1 <= steps)
-    if K < 2 or H.P("stmt"):
+    if H.P("cb_threads", 1) > 1:
+        H.assume(n1 == 4)                      # thread choices consume picks: all four pick patterns
+    elif K < 2 or H.P("stmt"):
         H.assume(n1 == 4 and pk <= 1)
     else:
         H.assume(n1 == 4)
@@ -225,6 +227,14 @@ def obligations(tier, seed):
                                    "stmt": True}, "timeout": 3400,
                         "bounds": "statement-level switch points: call 0 with 4 tasks fails at any index, one pre-emption before "
                                   "any statement, then a second call"})
+    # custom backends may run completion callbacks concurrently (e.g. concurrent.futures done-callbacks fire in the
+    # worker threads): two callback threads
+    for be, ra, uw in [("stub_noabort", "list", True), ("stub_cb", "list", False), ("stub_noabort", "generator_unordered", True)]:
+        obs.append({"name": "fail2cb/%s/%s/with=%s" % (be, ra, uw), "fn": "ob_fail", "mode": "S",
+                    "params": {"backend": be, "return_as": ra, "use_with": uw, "K": 1, "n0": 5, "pre_dispatch": 2,
+                               "cb_threads": 2}, "timeout": 900,
+                    "bounds": "two concurrent callback threads: call 0 (5 tasks) fails at any index; one pre-emption anywhere; "
+                              "2x2 picks (completion and thread choices); then a 4-task call"})
     for be, ra in [("threading", "list"), ("loky", "generator"), ("stub_legacy", "list"), ("stub_noabort", "list")]:
         obs.append({"name": "iterfail/%s/%s" % (be, ra), "fn": "ob_iterfail", "mode": "S",
                     "params": {"backend": be, "return_as": ra, "n0": 8}, "timeout": 600,
